@@ -304,25 +304,39 @@ func (p *producers) stream(keys []cid.Cid, fail bool) provider.KeyChanFunc {
 // recording routers
 
 type event struct {
-	batch int  // >0: a ProvideMany/Provide call with that many keys; 0: callback
-	cbRet bool // callback return value
+	batch  int  // >0: a ProvideMany/Provide call with that many keys; 0: callback
+	cbRet  bool // callback return value
+	failed bool // the router call returned errRouter
 }
+
+// errRouter is what a router call returns at the call indices listed in Case.FailAt: a
+// transient failure of the routing system (the keys were handed over, the announcement
+// failed). Reprovide logs such an error and goes on with the next batch.
+var errRouter = errors.New("injected transient router failure")
 
 type recorder struct {
 	mu     sync.Mutex
-	keys   []string // announced multihashes (as strings) of the current pass
+	keys   []string // multihashes (as strings) handed to the router in the current pass
 	events []event
+	failAt map[int64]bool // router call indices (0-based, over the life of the system) that fail
 	calls  atomic.Int64
 }
 
-func (r *recorder) add(n int, hs ...mh.Multihash) {
+// add records one router call and returns the error the router answers with.
+func (r *recorder) add(n int, hs ...mh.Multihash) error {
 	r.mu.Lock()
+	idx := r.calls.Load()
+	fail := r.failAt[idx]
 	for _, h := range hs {
 		r.keys = append(r.keys, string(h))
 	}
-	r.events = append(r.events, event{batch: n})
-	r.mu.Unlock()
+	r.events = append(r.events, event{batch: n, failed: fail})
 	r.calls.Add(1)
+	r.mu.Unlock()
+	if fail {
+		return errRouter
+	}
+	return nil
 }
 
 type manyRouter struct{ r *recorder }
@@ -335,15 +349,13 @@ func (m manyRouter) Provide(ctx context.Context, c cid.Cid, _ bool) error {
 func (m manyRouter) ProvideMany(ctx context.Context, keys []mh.Multihash) error {
 	cp := make([]mh.Multihash, len(keys))
 	copy(cp, keys)
-	m.r.add(len(keys), cp...)
-	return nil
+	return m.r.add(len(keys), cp...)
 }
 
 type singleRouter struct{ r *recorder }
 
 func (s singleRouter) Provide(ctx context.Context, c cid.Cid, _ bool) error {
-	s.r.add(1, c.Hash())
-	return nil
+	return s.r.add(1, c.Hash())
 }
 
 // ---------------------------------------------------------------------------
@@ -472,6 +484,9 @@ type Case struct {
 	AllowKind    string       `json:"allow_kind"`
 	AllowEntries []AllowEntry `json:"allow_entries"`
 	Passes       int          `json:"passes"`
+	// FailAt lists router call indices (0-based, counted over all passes of the case) at
+	// which ProvideMany / Provide returns an error after having received its keys.
+	FailAt []int `json:"fail_at,omitempty"`
 }
 
 var limitPool = []uint{1, 1, 2, 3, 4, 5, 7, 8, 10, 16, 33, 64, 100, 199, 200, 201, 1000}
@@ -503,11 +518,33 @@ func gen(t *rapid.T) Case {
 	}
 	c.AllowKind, c.AllowEntries = genAllow(t)
 	c.Passes = rapid.SampledFrom([]int{1, 1, 2}).Draw(t, "passes")
+	// transient router failures (drawn last, so the draws above keep their meaning)
+	switch rapid.IntRange(0, 9).Draw(t, "failmode") {
+	case 0, 1: // 1-3 scattered failing calls among the first few
+		n := rapid.IntRange(1, 3).Draw(t, "nfail")
+		seen := map[int]bool{}
+		for i := 0; i < n; i++ {
+			if at := rapid.IntRange(0, 9).Draw(t, "failat"); !seen[at] {
+				seen[at] = true
+				c.FailAt = append(c.FailAt, at)
+			}
+		}
+		sort.Ints(c.FailAt)
+	case 2, 3: // a run of consecutive failing calls
+		from := rapid.IntRange(0, 5).Draw(t, "failfrom")
+		n := rapid.IntRange(2, 6).Draw(t, "failrun")
+		for i := 0; i < n; i++ {
+			c.FailAt = append(c.FailAt, from+i)
+		}
+	}
 	return c
 }
 
 func run(c Case) kit.Result {
-	rec := &recorder{}
+	rec := &recorder{failAt: map[int64]bool{}}
+	for _, at := range c.FailAt {
+		rec.failAt[int64(at)] = true
+	}
 	var rsys provider.Provide = manyRouter{rec}
 	if c.Router == "single" {
 		rsys = singleRouter{rec}
@@ -590,6 +627,7 @@ func run(c Case) kit.Result {
 	progress := func() int64 { return prod.sent.Load() + prod.relayed.Load() + rec.calls.Load() }
 
 	batches := 0
+	failedCalls, failedMid, errReturns := 0, 0, 0
 	for pass := 0; pass < c.Passes; pass++ {
 		rec.mu.Lock()
 		rec.keys, rec.events = nil, nil
@@ -609,16 +647,38 @@ func run(c Case) kit.Result {
 			}
 			return kit.Result{Err: errors.New(msg)}
 		}
-		if res.err != nil {
-			return kit.Fail("Reprovide returned %v (pass %d)", res.err, pass)
-		}
-		if got := delivered.Load() - sent0; len(streams) == 1 && got != int64(total) {
-			return kit.Fail("Reprovide returned nil after reading %d of %d keys (pass %d)", got, total, pass)
-		}
-
 		rec.mu.Lock()
 		keys, events := rec.keys, rec.events
 		rec.mu.Unlock()
+		// After a router call failed in this pass only the unconditional parts of the
+		// statement are demanded: Reprovide terminates (above), nothing but allowed keys
+		// reaches the router and every call respects the configured maximum. What happens
+		// to the keys of a failed call (dropped, retried) and whether the failure is
+		// reported in the return value is left to the implementation.
+		failedHere, lastCall := 0, -1
+		for i, e := range events {
+			if e.batch > 0 {
+				lastCall = i
+			}
+		}
+		for i, e := range events {
+			if e.failed {
+				failedHere++
+				if i < lastCall {
+					failedMid++
+				}
+			}
+		}
+		failedCalls += failedHere
+		if res.err != nil {
+			if failedHere == 0 {
+				return kit.Fail("Reprovide returned %v (pass %d)", res.err, pass)
+			}
+			errReturns++
+		}
+		if got := delivered.Load() - sent0; failedHere == 0 && len(streams) == 1 && got != int64(total) {
+			return kit.Fail("Reprovide returned nil after reading %d of %d keys (pass %d)", got, total, pass)
+		}
 		got := map[string]bool{}
 		for _, k := range keys {
 			if !want[k] {
@@ -627,7 +687,7 @@ func run(c Case) kit.Result {
 			}
 			got[k] = true
 		}
-		if len(got) != len(want) {
+		if len(got) != len(want) && failedHere == 0 {
 			for k := range want {
 				if !got[k] {
 					return kit.Fail("allowed key %s was never announced (%d of %d announced, pass %d)", mh.Multihash(k).B58String(), len(got), len(want), pass)
@@ -647,10 +707,10 @@ func run(c Case) kit.Result {
 				continue
 			}
 			if c.HasMaxBatch && c.MaxBatch > 0 && uint(e.batch) > c.MaxBatch {
-				return kit.Fail("batch of %d keys exceeds MaxBatchSize(%d) (pass %d)", e.batch, c.MaxBatch, pass)
+				return kit.Fail("batch of %d keys exceeds MaxBatchSize(%d) (pass %d, %d router call(s) failed in the pass)", e.batch, c.MaxBatch, pass, failedHere)
 			}
 			if c.HasThrough && c.ThroughMin > 0 && !cbStopped && uint(e.batch) > c.ThroughMin {
-				return kit.Fail("batch of %d keys exceeds the ThroughputReport minimum %d while the report is active (pass %d)", e.batch, c.ThroughMin, pass)
+				return kit.Fail("batch of %d keys exceeds the ThroughputReport minimum %d while the report is active (pass %d, %d router call(s) failed in the pass)", e.batch, c.ThroughMin, pass, failedHere)
 			}
 		}
 	}
@@ -674,6 +734,18 @@ func run(c Case) kit.Result {
 	if batches >= 2*c.Passes {
 		cls = append(cls, "multi-batch")
 	}
+	if failedCalls > 0 {
+		cls = append(cls, "router-failed")
+	}
+	if failedMid > 0 {
+		cls = append(cls, "router-failed-before-last-call")
+		if c.Router == "many" && ((c.HasMaxBatch && c.MaxBatch > 0) || (c.HasThrough && c.ThroughMin > 0)) {
+			cls = append(cls, "many-bounded-failed-before-last-call")
+		}
+	}
+	if errReturns > 0 {
+		cls = append(cls, "err-return-after-router-failure")
+	}
 	return kit.Result{NonTrivial: dups > 0 && rejected > 0 && len(want) > 0 && batches >= 2*c.Passes, Classes: cls}
 }
 
@@ -692,7 +764,7 @@ func sample(c Case) any {
 
 var spec = kit.Spec[Case]{
 	Prop: "C44", Name: "reprovide",
-	Rule: "key streams (<=200 synthetic CIDs: duplicates, CIDv0/v1 forms, rejected hash functions, digest lengths around 20/128, identity) fed to provider.New(...).Reprovide with ProvideMany or single-Provide router, MaxBatchSize 0..1000, ThroughputReport threshold 0..1000 (callback returning false at a drawn call), default/custom/overriding allowlist, 1-2 passes, optionally through NewPrioritizedProvider; non-trivial = stream has duplicate CIDs, rejected keys, >=1 allowed key and >=2 router calls per pass",
+	Rule:  "key streams (<=200 synthetic CIDs: duplicates, CIDv0/v1 forms, rejected hash functions, digest lengths around 20/128, identity) fed to provider.New(...).Reprovide with ProvideMany or single-Provide router, MaxBatchSize 0..1000, ThroughputReport threshold 0..1000 (callback returning false at a drawn call), default/custom/overriding allowlist, 1-2 passes, optionally through NewPrioritizedProvider, in 40% of the cases a router whose calls fail at drawn call indices (scattered or a consecutive run; then only termination, no-rejected-key and the batch bound are judged for that pass); non-trivial = stream has duplicate CIDs, rejected keys, >=1 allowed key and >=2 router calls per pass",
 	Quick: 1500, Thorough: 3500,
 	Gen: gen, Run: run, Sample: sample,
 }
@@ -826,7 +898,7 @@ func runPrio(c PCase) kit.Result {
 
 var specPrio = kit.Spec[PCase]{
 	Prop: "C44", Name: "prio",
-	Rule: "1-4 key streams (<=60 keys each from a small pool so that streams overlap, CIDv0/v1 forms, 10% streams whose KeyChanFunc fails) through NewPrioritizedProvider; output must contain every key, first emissions in stream order, and a key owned by an earlier stream is not emitted again; non-trivial = >=2 live streams with overlapping keys",
+	Rule:  "1-4 key streams (<=60 keys each from a small pool so that streams overlap, CIDv0/v1 forms, 10% streams whose KeyChanFunc fails) through NewPrioritizedProvider; output must contain every key, first emissions in stream order, and a key owned by an earlier stream is not emitted again; non-trivial = >=2 live streams with overlapping keys",
 	Quick: 1500, Thorough: 6000,
 	Gen: genPrio, Run: runPrio,
 }
